@@ -82,8 +82,16 @@ def run_case(case, R):
                 cache.async_create_or_update_map(key_, cn, DB, KEY.hex(), None if case["cache_state"] == "none" else 0)
         ctl = BleController(char_cache=cache)
         pairing = ctl.load_pairing("alias", dict(PD))
-        calls = []
-        pairing.dispatcher_connect(lambda ev: calls.append(dict(ev)))
+        from props._listeners import attach as attach_listeners
+        if case.get("listeners"):
+            # several listeners, one of which raises: what the others are told must not depend on it
+            logs = attach_listeners(pairing, 3)
+            calls = logs[0]
+            R.cls("listeners:3+raising")
+        else:
+            logs = None
+            calls = []
+            pairing.dispatcher_connect(lambda ev: calls.append(dict(ev)))
         avail = []
         pairing.dispatcher_availability_changed(lambda a: avail.append(a))
         dev = BLEDevice(ADDRESS, "Sim", None)
@@ -195,7 +203,13 @@ def run_case(case, R):
                 before_avail = (len(avail), pairing.is_available)
                 Cache.fail_writes = bool(case.get("cache_fails")) and kind != "regular"
                 err = feed(m)
+                if case.get("twice") and err is None and kind != "regular":
+                    # scanners report the same advertisement several times in quick succession: the repeat arrives before the loop runs again
+                    err = feed(m)
                 await vtime.settle(loop)
+                if logs is not None and any(l_ != logs[0] for l_ in logs[1:]):
+                    R.fail("C18.wrong-delivery", f"event {idx} {ev}: the listeners were told different things {[l_[-2:] for l_ in logs]!r:.300} (another listener raises)", fmt="listeners")
+                    return
                 if case.get("unreachable"):
                     await asyncio.sleep(120)          # let a catch-up poll run out of retries
                     await vtime.settle(loop)
@@ -343,7 +357,8 @@ def histories(draw):
     events = [[draw(st.sampled_from(KINDS)), draw(st.integers(0, 6)), draw(st.integers(0, 10**6)), draw(st.integers(0, 10**6))] for _ in range(n)]
     if draw(st.integers(0, 9)) == 0:
         events.insert(draw(st.integers(0, len(events))), ["flip-all", draw(st.integers(0, 6)), 3, 0])
-    case = {"g0": g0, "events": events, "cold": draw(st.integers(0, 3)) == 0, "cn": draw(st.sampled_from([1, 1, 3, 40, 255]))}
+    case = {"g0": g0, "events": events, "cold": draw(st.integers(0, 3)) == 0, "cn": draw(st.sampled_from([1, 1, 3, 40, 255])),
+            "listeners": draw(st.booleans()), "twice": draw(st.integers(0, 2)) == 0}
     extra = draw(st.integers(0, 9))
     if extra == 0:
         case["unreachable"] = True
@@ -360,6 +375,10 @@ def enum_fixed(tier):
     yield {"g0": 10, "events": hist, "unreachable": True}
     yield {"g0": 65000, "events": hist[:6], "unreachable": True, "cn": 3}
     yield {"g0": 10, "events": hist, "cache_fails": True}
+    for g0 in (10, 65000):
+        yield {"g0": g0, "events": hist, "listeners": True}
+        yield {"g0": g0, "events": hist, "twice": True}
+        yield {"g0": g0, "events": [["skip", 1, 1, 0], ["skip", 2, 2, 40], ["skip", 3, 3, 96], ["next", 1, 4, 0], ["skip", 2, 5, 9]], "twice": True, "listeners": True}
     for shape in ("none", "zero"):
         yield {"g0": 0, "cold": True, "cache_state": shape, "events": [["next", 1, 1, 0], ["wrong-key", 1, 0, 0], ["truncated", 1, 0, 3], ["regular", 0, 0, 2], ["next", 1, 2, 0], ["replay-current", 1, 0, 0]]}
     for g0, cn in ((100, 1), (900, 3), (40, 255), (65434, 7)):
